@@ -55,6 +55,9 @@ NestingDepth(t) == DepthScan(t, 1, 0, 0)
 -----------------------------------------------------------------------------
 (* catalogued deviations: exact condition + exact wrong outcome            *)
 
+\* (No finding of C03 is open at present: Open = {} and every crash is a VIOLATION.  The model below
+\* describes the pinned tree before the nesting limit of commit 01f1c54 and is selected only if a
+\* finding of that name is open in known_findings.jsonl.)
 \* "deep-nesting-stack-overflow": element / content / Display / drop recurse once per nesting level;
 \* beyond DeepSafe levels the 8 MiB stack of the worker is exhausted and the process is killed by
 \* SIGABRT (Rust's stack-overflow handler) or SIGSEGV.  Nothing else is excused: a panic or a
